@@ -62,6 +62,8 @@ def gaps_of(ctx: Ctx, g, maxabs: float) -> dict:
     n = ctx.n
     if not g.is_value_known(Coalition(2 ** n - 1)):
         return NOGAP
+    if ctx.mode == "exact" and maxabs * ctx.scale > 2 ** 13:
+        return NOGAP          # games with a huge offset: the gap numerators (squares, n! multiples) would not fit 32 bits -- gaps not logged
     try:
         tight = ctx.mode == "exact"
         den1 = ctx.scale if tight else ctx.grid
@@ -293,6 +295,10 @@ def main():
                     v = D.random_sa_game(n, rng, sing=(-9, -1), slack=(0, 2))
                 elif kind < 0.5:
                     v = D.random_sa_game(n, rng, sing=(0, 0), slack=(0, 1), p_zero_slack=0.6)
+                if n <= 4 and rng.random() < 0.1:
+                    # a large common offset per player (additive shift keeps superadditivity): huge values, small spread
+                    big = float(2 ** 20)
+                    v = [x + big * bin(c).count("1") for c, x in enumerate(v)]
                 cls, mode = "SA", "exact"
                 objs = [{"comp": "sa", "r": 0}, {"comp": "sac", "r": 0}]
             elif fam in ("sam", "paths_sam"):
@@ -309,6 +315,10 @@ def main():
                     v = D.random_sam_game(n, rng)
                     if rng.random() < 0.2:
                         v = [x / 4 for x in v]
+                if n <= 4 and rng.random() < 0.15:
+                    # a large fixed cost on top of the game: values are huge compared with their spread (still SAM, still exact)
+                    big = float(2 ** 20)
+                    v = [0.0] + [x - big for x in v[1:]]
                 cls, mode = "SAM", "exact"
                 objs = [{"comp": "sac", "r": 0}] + [{"comp": "sam", "r": r} for r in reps]
             elif fam == "cached":
